@@ -10,6 +10,7 @@ from hypothesis import strategies as st
 
 from .. import formcheck, inputs, kernels, refeval, specs, strategies
 from ..common import Run, ShardResult, run_shards, scratch, spec_hash, verif_seed
+from ..common import thorough  # noqa: E402
 from ..hyp import Outcome, drive
 
 PROP = "C03"
@@ -399,7 +400,7 @@ def shard(shard, nshards, n, max_pairs, seed):
 
 def run(tier: str) -> int:
     run_ = Run(PROP, tier, "exploration", RULE)
-    n, max_pairs = (4, 64) if tier == "quick" else (30, 600)
+    n, max_pairs = (4, 64) if tier == "quick" else (thorough(12), 600)
     for part in run_shards(shard, 16, n=n, max_pairs=max_pairs, seed=verif_seed()):
         run_.merge(part)
     run_.assumptions = [
